@@ -242,7 +242,7 @@ func (s *server) forceKill() {
 	}
 }
 
-var probeClient = &http.Client{Transport: &http.Transport{DisableKeepAlives: true}, Timeout: 2 * time.Second}
+var probeClient = &http.Client{Transport: &http.Transport{DisableKeepAlives: true}, Timeout: 10 * time.Second}
 
 func (s *server) probe(timeout time.Duration) (bool, int) {
 	c := *probeClient
